@@ -6,7 +6,7 @@ From Coq Require Import ZifyBool.
 Open Scope Z_scope.
 
 Definition fmt_str (f : fmt) : str :=
-  match f with Gff => U 0x1000067000066000066 | Bed => U 0x1000062000065000064 end.
+  match f with Gff => U "gff"%bs | Bed => U "bed"%bs end.
 
 Ltac norm_shift := repeat match goal with
  |- context [Z.shiftr (Z.shiftr ?a ?n) ?m] =>
